@@ -267,6 +267,10 @@ def check_regex_resolution_per_evaluation(repo: Repo, res: Result) -> None:
         why_a = f"the matcher factory LayerRule hands to the wrapped Rule keeps the matcher it built (`{kept}`), so every assert_applies of a layer rule evaluates with the same matcher"
     # (b) does every match() resolve the regexes against its evaluable?
     vm = dview(repo, match, lm, family(repo, lm), tag="lm")
+    if not _converter_calls(repo, T, vm, conv):
+        # the resolution was moved into a helper object (`requirement.resolved_against(evaluable)`, `Resolution.resolve(..)`,
+        # a NamedTuple / dataclass factory): inline the methods of other classes through which a conversion is reached
+        vm = dview(repo, match, lm, resolution_policy(repo, lm, conv), tag="lm-resolution")
     ev = match.param_names[1] if len(match.param_names) > 1 else None
     convs = []
     rebuilt: list[ast.Call] = []
@@ -315,6 +319,65 @@ def check_regex_resolution_per_evaluation(repo: Repo, res: Result) -> None:
         res.add("C05.R7", key_of(repo, vm, c, f" [{what}]"), False, f"`{norm(c, 60)}` is skipped depending on the matcher's own state ({', '.join(atoms_)}) and {why_a}: a layer rule applied to a second evaluable judges it with the modules its regex layers matched in the first one", where_of(vm, c), kind="dominance")
     else:
         res.undecide("C05.R7", construct, f"`{norm(c, 60)}` depends on matcher state ({', '.join(atoms_)}) and it could not be established whether Rule.assert_applies builds a new matcher per evaluation", where_of(vm, c))
+
+
+def _converter_calls(repo: Repo, T, view: FuncInfo, conv) -> list[ast.Call]:
+    out = []
+    for n in all_nodes(view):
+        if isinstance(n, ast.Call):
+            src = getattr(n, "_src", None)
+            ctx, orig = src if src is not None else (view, n)
+            try:
+                cs, _how = T.callees(ctx, orig, byname_fallback=False)
+            except Exception:  # noqa: BLE001
+                cs = []
+            if any(c.cls is not None and c.cls.fq == conv.fq and not c.name.startswith("_") for c in cs):
+                out.append(n)
+    return out
+
+
+def resolution_policy(repo: Repo, lm, conv, helper_classes: bool = False):
+    """Inlining policy `family(LayerRuleMatcher)` widened by the methods of *other* classes (and classmethods / factories) from
+    which a public method of ModuleNameConverter is reachable - the path the regex resolution takes when it lives in a helper
+    object.  The converter itself, the detectors and the evaluable stay calls (they are the vocabulary of the rules)."""
+    cache = repo.__dict__.setdefault("_c05_resolution_policy", {})
+    if ("allow", helper_classes) in cache:
+        return cache[("allow", helper_classes)]
+    from .common import callees_of
+
+    base = family(repo, lm)
+    targets = {m.fq for m in conv.methods.values() if not m.name.startswith("_")}
+    funcs = [f for f in repo.all_functions() if not isinstance(f.node, ast.Lambda)]
+    edges: dict[str, set[str]] = {}
+    for f in funcs:
+        try:
+            edges[f.fq] = {c.fq for c in callees_of(repo, f, byname=False)}
+        except Exception:  # noqa: BLE001
+            edges[f.fq] = set()
+    reaches = set(targets)
+    changed = True
+    while changed:
+        changed = False
+        for fq, cs in edges.items():
+            if fq not in reaches and cs & reaches:
+                reaches.add(fq)
+                changed = True
+    keep_out = ("pytestarch.eval_structure.module_name_converter", "pytestarch.eval_structure.evaluable_graph", "pytestarch.eval_structure.networkxgraph")
+
+    # classes that host a part of the resolution (a method from which the converter is reached): records of the resolution
+    hosts = {f.cls.fq for f in funcs if f.fq in reaches and f.fq not in targets and f.cls is not None and f.cls.fq not in {c.fq for c in repo.mro(lm)} and not f.module.name.startswith("pytestarch.query_language")}
+
+    def allow(caller: FuncInfo, callee: FuncInfo) -> bool:
+        if base(caller, callee):
+            return True
+        if callee.module.name in keep_out or callee.fq in targets:
+            return False
+        if callee.fq in reaches:
+            return True
+        return helper_classes and callee.cls is not None and callee.cls.fq in hosts and callee.module.name.startswith("pytestarch.rule_assessment.rule_check.rule_matcher")
+
+    cache[("allow", helper_classes)] = allow
+    return allow
 
 
 def _is_matcher_construction(v: ast.expr, repo: Repo | None = None, T=None, view: FuncInfo | None = None) -> bool:
@@ -375,6 +438,14 @@ def check_conversion_map_complete(repo: Repo, res: Result) -> None:
     for n, ci in others:
         res.add("C05.R2", key_of(repo, vm, n, " [detector]"), False, f"the layer matcher builds a `{ci.name}` here: on this path the rule is judged per module, without the same-layer filter and the one-unit-per-layer leniency", where_of(vm, n), kind="structural")
     # ---- the maps produced by the regex conversion
+    policy = family(repo, lm)
+    wide = False
+    if not _converter_calls(repo, T, vm, conv):
+        # the conversion lives in a helper object (NamedTuple / dataclass factory, a method of the module requirement): follow it
+        policy = resolution_policy(repo, lm, conv, helper_classes=True)
+        vm = dview(repo, match, lm, policy, tag="lm-resolution-classes")
+        nodes = list(all_nodes(vm))
+        wide = True
     maps: list[str] = []
     for n in nodes:
         if isinstance(n, ast.Assign) and isinstance(n.value, ast.Call):
@@ -399,8 +470,8 @@ def check_conversion_map_complete(repo: Repo, res: Result) -> None:
     if factory is None or len(factory.param_names) < 2 or not maps:
         return  # reported by check_layer_mapping_update / nothing to relate
     # a view of match() in which the factory stays a call: its argument is the map
-    fam = family(repo, lm)
-    vm = dview(repo, match, lm, lambda a, b: fam(a, b) and b.fq != factory.fq, tag="lm-factory-kept")
+    fam = policy
+    vm = dview(repo, match, lm, lambda a, b: fam(a, b) and b.fq != factory.fq, tag="lm-factory-kept" + ("-resolution" if wide else ""))
     calls = [n for n in all_nodes(vm) if isinstance(n, ast.Call) and isinstance(n.func, ast.Attribute) and n.func.attr == factory.name and (n.args or n.keywords)]
     if len(calls) != 1:
         res.undecide("C05.R2", construct, f"{len(calls)} calls of the detector factory in the inlined view of match (expected one)", where(match, match.node))
@@ -416,6 +487,24 @@ def check_conversion_map_complete(repo: Repo, res: Result) -> None:
                 for m_, al in aliases.items():
                     if vt in al:
                         al.add(norm(n.targets[0]))
+                # a record built from the maps (`self._resolved = Resolution(requirement, subject_map, object_map)`, dataclass /
+                # NamedTuple): `<target>.<field>` is another name of the argument stored in that field
+                if isinstance(n.value, ast.Call):
+                    src_ = getattr(n.value, "_src", None)
+                    c_ctx, c_orig = src_ if src_ is not None else (vm, n.value)
+                    try:
+                        rec = T.ctor_class(c_ctx, c_orig)
+                    except Exception:  # noqa: BLE001
+                        rec = None
+                    if rec is not None and repo.lookup_method(rec, "__init__") is None and not any(isinstance(a, ast.Starred) for a in n.value.args):
+                        fields_ = [a for c_ in reversed(repo.mro(rec)) for a in c_.ann_attrs]
+                        bound_ = {f_: a for f_, a in zip(fields_, n.value.args)}
+                        bound_.update({k.arg: k.value for k in n.value.keywords if k.arg})
+                        for f_, a in bound_.items():
+                            at = norm(a)
+                            for m_, al in aliases.items():
+                                if at in al or (m_.endswith("[1]") and at == m_[:-3]):
+                                    al.add(f"{norm(n.targets[0])}.{f_}")
 
     def used_params(callee: FuncInfo) -> set[str] | None:
         """Parameters of a helper (not inlined) that contribute to what it returns; None when that cannot be followed."""
@@ -444,6 +533,22 @@ def check_conversion_map_complete(repo: Repo, res: Result) -> None:
 
         for r in rets:
             walk_(r.value, 0, frozenset())
+        # fields of the receiver the result is built from (a method of a record that merges its own maps)
+        if callee.cls is not None and callee.param_names and not callee.is_staticmethod:
+            me = callee.param_names[0]
+
+            def fields_(e_: ast.AST, d_: int, seen_: frozenset) -> None:
+                for x in ast.walk(e_):
+                    if isinstance(x, ast.Attribute) and isinstance(x.value, ast.Name) and x.value.id == me and isinstance(x.ctx, ast.Load):
+                        used.add(f"{me}.{x.attr}")
+                    elif isinstance(x, ast.Name) and isinstance(x.ctx, ast.Load) and d_ < 4 and x.id not in seen_ and x.id not in params and x.id != me:
+                        for p_ in productions(cv, x):
+                            for part in (p_.elt, p_.key, p_.merged, *[it for _t, it in p_.loops]):
+                                if part is not None and part is not x:
+                                    fields_(part, d_ + 1, seen_ | {x.id})
+
+            for r in rets:
+                fields_(r.value, 0, frozenset())
         cache_[key_] = used
         return used
 
@@ -480,6 +585,15 @@ def check_conversion_map_complete(repo: Repo, res: Result) -> None:
                     for p_, a in binding.items():
                         if p_ in up:
                             out |= mentioned(a, depth + 1, seen)
+                    if isinstance(x.func, ast.Attribute) and callee.param_names:
+                        me_ = callee.param_names[0]
+                        recv_text = norm(x.func.value)
+                        for u_ in up:
+                            if u_.startswith(me_ + "."):
+                                t_ = f"{recv_text}.{u_[len(me_) + 1:]}"
+                                for m_ in maps:
+                                    if t_ in aliases[m_]:
+                                        out.add(m_)
                     continue
             if isinstance(x, (ast.Attribute, ast.Name)) and isinstance(getattr(x, "ctx", None), ast.Load):
                 t = norm(x)
